@@ -175,6 +175,47 @@ theorem readLineLoop_measure (k : Nat) (racc : Bytes) (s : RStream) (he : s.eof 
   · simp only [Bool.false_eq_true, if_true, if_false]
     omega
 
+/-- a call that returns `true` has consumed its LF: the stream is strictly shorter -/
+theorem readLineLoop_true_shorter (k : Nat) (racc : Bytes) (s : RStream)
+    (ht : (readLineLoop k racc s).1.2 = true) : (readLineLoop k racc s).2.rest.length < s.rest.length := by
+  fun_induction readLineLoop k racc s with
+  | case1 racc s r out h => simp at ht
+  | case2 racc s c ch r out h vis rall s' hr ih =>
+    have hl := fgetsAux_length (k + 1) s.rest
+    rw [h] at hl
+    simp only [List.length_cons] at hl
+    have hs' : s'.rest.length = r.length := rfl
+    have := ih ht
+    omega
+  | case3 racc s c ch r out h vis rall s' t hr =>
+    have hl := fgetsAux_length (k + 1) s.rest
+    rw [h] at hl
+    simp only [List.length_cons] at hl
+    have hs' : s'.rest.length = r.length := rfl
+    simp only
+    omega
+  | case4 racc s c ch r out h vis rall s' x t hr hx ih =>
+    have hl := fgetsAux_length (k + 1) s.rest
+    rw [h] at hl
+    simp only [List.length_cons] at hl
+    have hs' : s'.rest.length = r.length := rfl
+    have := ih ht
+    omega
+
+/-! ## the caller's loop `while (f.readLine(s)) out << s;` -/
+
+/-- The loop driven by the `bool` result of `readLine(String&)`: the strings delivered with `true` (in order), the
+    string left in `s` by the final call that returned `false`, and the stream afterwards.  A `true` call has consumed
+    an LF, so the loop ends on every content (NUL bytes included). -/
+def readWhileLoop (k : Nat) (s : RStream) (acc : List Bytes) : (List Bytes × Bytes) × RStream :=
+  let r := readLineLoop k [] s
+  if h : r.1.2 = true then readWhileLoop k r.2 (r.1.1 :: acc) else ((acc.reverse, r.1.1), r.2)
+termination_by s.rest.length
+decreasing_by exact readLineLoop_true_shorter k [] s h
+
+/-- `while (f.readLine(s)) out << s;` on an open stream, with the `chunk` of the source -/
+def readWhile (chunk : Nat) (s : RStream) : (List Bytes × Bytes) × RStream := readWhileLoop (chunk - 2) s []
+
 /-! ## `TextFile::readLine(char newline)` -/
 
 /-- `while (1) { char c; if (read(&c, 1) < 1) break; if (c == newline) break; s << c; }` — one `fread` of one
@@ -372,6 +413,14 @@ def hreadLine (chunk : Nat) (h : Handle) : (Bytes × Bool) × Handle :=
     (r.1, { h with rs := r.2 })
   else (([], false), { h with err := true })
 
+/-- `while (f.readLine(s)) out << s;` through an open object: on a stream that cannot be read the first call fails
+    (see `hreadLine`): nothing delivered, the empty string left -/
+def hreadWhile (chunk : Nat) (h : Handle) : (List Bytes × Bytes) × Handle :=
+  if h.sm.canRead then
+    let r := readWhile chunk h.rs
+    (r.1, { h with rs := r.2 })
+  else (([], []), { h with err := true })
+
 /-- `end()`: `feof(_file) != 0 || ferror(_file) != 0` (repair 4bfeeba: it used to test `feof` only, so the documented
     loop `while (!f.end()) f.readLine();` never ended after a failed read) -/
 def hend (h : Handle) : Bool := h.rs.eof || h.err
@@ -546,6 +595,16 @@ def Obj.open (d : Disk) (o : Obj) (mode : OpenMode) : Bool × Disk × Obj :=
   let o0 := if o.file.isSome then o.close else o
   let r := openH d o0.path o0.isText mode
   (r.1.isSome, r.2, { o0 with file := r.1 })
+
+/-- `File::open(name, mode)` / `TextFile::open(name, mode)` with a name of the caller's (also what the constructors
+    `File(name, mode)` / `TextFile(name, mode)` run): `if (_file) close();`, `fopen`, then `_path = name` **whether or not
+    `fopen` succeeded** — so an object whose open failed (READ on a file that does not exist yet) refers to `name`, and
+    the lazily opening writers create and write that file.  The cached stat information is not touched when the
+    object was not open. -/
+def Obj.openAt (d : Disk) (o : Obj) (p : Nat) (mode : OpenMode) : Bool × Disk × Obj :=
+  let o0 := if o.file.isSome then o.close else o
+  let r := openH d p o0.isText mode
+  (r.1.isSome, r.2, { o0 with path := p, file := r.1 })
 
 /-- `if (!_file && !open(mode)) …`: what every lazily opening member does first; `text` tells whether the
     member calls `TextFile::open` (with `TEXT`) or `File::open` -/
